@@ -3,7 +3,7 @@
    list.  T stands for the 15 mode tables; they are regenerated from code.go on every run and
    table_ok T is re-proved for them by computation (C02/TableProofs.v, with the instantiated
    theorems). *)
-From C02 Require Import Model Spec Proofs.
+From C02 Require Import Model Spec Proofs OneForm.
 
 (* (1) A text denotes one result, whatever the delivery: for EVERY list of stream blocks (any number,
    any sizes, empty blocks included), in all-objects and in one-form mode, the stream read equals the
@@ -49,7 +49,17 @@ Theorem C02_one_byte_refines : forall T esc m src pos s, table_ok T = true -> si
 Proof. exact step_sim. Qed.
 Print Assumptions C02_one_byte_refines.
 
-(* FULL STATEMENT not proved here (half-property): reading one form at a time, each read starting
-   where the previous one stopped, yields the objects of the whole read.  The position rule of the
-   one-form read is part of the model (stop_pos, m_block) and is compared with ReadOne on every
-   generated text; the iteration is run against the implementation on every text of part B. *)
+(* (7) reading one form at a time: if the one-form read of a text stops after an object at position p
+   (s_read_gen ... true, which (2) shows is what ReadOne computes), then the objects of the whole text are
+   that object followed by the objects of the text from p on, with the same error if there is one and
+   the same end position: p is where the form ends.  The reader restarted at p has fresh registers; the
+   proof relates it to the reader that kept going by an equivalence that ignores registers a mode does
+   not read, under a mode discipline of the tables (table_ok2, table_ok3) that is re-proved on the
+   regenerated tables on every run. *)
+Theorem C02_one_form_then_rest : forall T esc text s' p,
+  table_ok T = true -> table_ok2 T = true -> table_ok3 T = true ->
+  s_scan T esc true s0 text 0 = (s', p) -> c_err (s_core s') = None -> has_obj (s_core s') = true ->
+  s_read_gen T esc true text = ROk (rev (code (c_p (s_core s')))) p /\
+  s_read T esc text = prepend (rev (code (c_p (s_core s')))) p (s_read T esc (skipn p text)).
+Proof. exact one_then_rest. Qed.
+Print Assumptions C02_one_form_then_rest.
